@@ -32,7 +32,8 @@ def run(chk, repo: Repo):
     chk.rule("C13-R1", "CUQIarray.funvals/parameters convert exactly when needed, with the geometry's map, and set the flag", floor=2)
     chk.rule("C13-R2", "par2fun and fun2par are defined together; wrappers forward both", floor=9)
     chk.rule("C13-R3", "Image2D/Continuous2D: both directions use the same storage order and batch convention; Image2D vec2fun/fun2vec agree with par2fun/fun2par for either value of visual_only", floor=4)
-    chk.rule("C13-R4", "StepExpansion intervals: complementary comparisons on identical boundary expressions", floor=1)
+    chk.rule("C13-R4", "StepExpansion intervals: complementary comparisons on identical boundary expressions; both directions (par2fun, fun2par) index / iterate "
+                       "the SAME stored node partition", floor=1)
     chk.rule("C13-R5", "keyed lazy caches validate every mutable input of the cached expression", floor=2)
     chk.rule("C13-R6", "expansion geometries: shared input reshaping helpers and squeeze in both directions", floor=4)
     _r1(chk, repo)
